@@ -73,6 +73,18 @@ def gen_cases(seed, n, threads, max_assign):
             q["p"]["ps"].append(g.bgp(rng.choice([2, 3, 4])))
         if i % 8 == 3:
             q = G.twin_query(rng, quads, G.TWIN_KINDS[(i // 8) % len(G.TWIN_KINDS)])
+        delhist = i % 8 == 1
+        if delhist:
+            # delete history + patterns with a variable predicate whose object (or subject) gets bound by the join: every index
+            # permutation is read by some plan, so an index that a delete left stale shows as a disagreement between plans
+            V, C = G.V, G.C
+            shape = [[[V("a"), V("x"), V("b")], [V("b"), V("y"), V("c")]],
+                     [[V("b"), V("y"), V("c")], [V("a"), V("x"), V("b")]],
+                     [[V("a"), V("x"), V("b")], [V("c"), V("y"), V("b")]],
+                     [[V("a"), V("x"), C(rng.choice(G.IRIS[:4]))], [V("a"), V("y"), V("c")]]][(i // 8) % 4]
+            q = G.Gen(rng, set(), quads).select(1)
+            q["p"] = {"t": "join", "ps": [{"t": "bgp", "tps": shape}]}
+            q["star"], q["proj"], q["group"], q["from"], q["fromnamed"] = True, [], [], [], []
         if i % 8 == 5:
             # merged default graph: two or three FROM graphs (a triple may be in several of them: the merge is duplicate-free) and a
             # join whose patterns are generalised from the merged content, so that several left rows probe the same triple
@@ -118,7 +130,7 @@ def gen_cases(seed, n, threads, max_assign):
         rng.shuffle(quads)
         k = max(1, int(len(quads) * 0.7))
         early, late = sorted(quads[:k]), quads[k:]
-        late_del = [list(x) for x in early if x[3] == "" and rng.random() < 0.15 and not wide]
+        late_del = [list(x) for x in early if x[3] == "" and rng.random() < (0.4 if delhist else 0.15) and not wide]
         if wide:
             qs = qs[:1]
         cases.append({"steps": G.setup_steps(early), "late": [list(x) for x in late], "late_del": late_del,
